@@ -13,7 +13,7 @@ from vlib.nondet import concrete_region, nondet_bool, nondet_int, nondet_sym
 from .common import build, index_of, m_depth, m_preorder, model_from_pv, pick_parent_vector
 
 BS = chr(92)
-NAMES = ["a", "a b", '"', BS, 'a"b' + BS, u"é", "a", 7, "x" + BS + BS + '"', "->", ""]
+NAMES = ["a", "a b", '"', BS, 'a"b' + BS, u"é", "a", 7, "x" + BS + BS + '"', "->", "", "100%", "a%sb%%", "x" + chr(10) + "y", u"p\u2028q"]
 
 
 class G(NodeMixin):
@@ -128,7 +128,8 @@ def _flags():
 
 
 # (name rotation, custom functions?, indent, custom nodenamefunc?)
-VARIANTS = [(0, False, None, False), (2, False, None, False), (8, False, None, False), (4, True, 0, False), (7, True, 3, True), (5, True, 1, False)]
+VARIANTS = [(0, False, None, False), (2, False, None, False), (8, False, None, False), (4, True, 0, False), (7, True, 3, True), (5, True, 1, False),
+            (11, False, None, False), (12, True, 2, True), (10, True, 2, False)]
 
 
 def _setup(cfg):
